@@ -47,6 +47,9 @@ LinearOK   == pc = "done" /\ enc.ok => \A m1, m2 \in Msgs :
 StaircaseInvertible == IsStaircase(H) => Invertible(TailM(H))
 \* the step machine computes what the functional form FromH (used by other modules) computes
 SameAsFunctional == pc = "done" => enc = FromH(H)
+\* on a staircase matrix the accumulator arm and the dense (Gauss-Jordan) arm produce the same codewords
+ArmsAgree == IsStaircase(H) /\ pc = "start" =>
+               LET d == DenseArm(H) s == StaircaseArm(H) IN d.ok /\ \A m \in Msgs : Encode(d, m) = Encode(s, m)
 \* after the backward sweep the left block is the identity (Gauss-Jordan postcondition)
 JordanOK == pc = "done" /\ enc.ok /\ enc.kind = "dense" =>
               \A r \in 1..Len(H) : \A t \in 1..Len(H) : a[r][t] = IF r = t THEN 1 ELSE 0
